@@ -678,6 +678,32 @@ func checkSnaclErrors(c *Ctx, rule string) {
 		}
 	}
 	c.Floor(rule, "error-returning calls inside snacl", n, 4)
+	// ... and at the address manager's calls INTO the crypto layer: a failed Decrypt / Encrypt / DeriveKey / Unmarshal is
+	// reported by the caller — never tested and then stepped over (`if pt, err := k.Decrypt(ct); err == nil { use(pt) }`
+	// followed by a test of another err): the manager would go on with an all-zero key and seal data under it
+	crypto := map[string]bool{"Decrypt": true, "Encrypt": true, "DeriveKey": true, "Unmarshal": true, "NewSecretKey": true, "GenerateCryptoKey": true}
+	ed2 := newErrDisc(p)
+	m := 0
+	for _, fn := range p.FuncsIn("waddrmgr") {
+		for _, ci := range callsOf(fn) {
+			call, ok := ci.(*ssa.Call)
+			if !ok || callErrIndex(call.Common()) < 0 || !crypto[calleeShort(call.Common())] {
+				continue
+			}
+			if g := call.Call.StaticCallee(); g != nil && shortPkg(fnPkgPath(g)) == "waddrmgr" && g.Signature.Recv() != nil && recvName(g) == "Manager" {
+				continue // the manager's own exported Encrypt/Decrypt wrappers are API, not the crypto layer
+			}
+			m++
+			res := ed2.checkSite(call)
+			kind := res.kind
+			if kind == "" {
+				kind = "propagated"
+			}
+			c.Check(rule, fmt.Sprintf("crypto-error-reported:%s/%s", fnName(fn), calleeDesc(call.Common())), call.Pos(), res.ok,
+				"an error of the crypto layer is "+kind+" in "+fnName(fn)+": "+res.detail+" — the address manager continues with key material that was never decrypted (all-zero key) or with ciphertext that was never produced")
+		}
+	}
+	c.Floor(rule, "calls from the address manager into the crypto layer", m, 20)
 }
 
 // checkAddrCacheAfterLastWrite: within one operation, an address object is put into the scoped manager's
@@ -1962,4 +1988,98 @@ func checkAccountCreationRefusesExistingNumber(c *Ctx, rule string) {
 		}
 	}
 	c.Floor(rule, "account-creating row writes", n, 2)
+}
+
+// checkConversionSuccessMeansStripped: ConvertToWatchingOnly reports success (nil) only when the database is marked
+// watching-only by this call (putWatchingOnly passed) or is found marked already (the database's own flag, read in this
+// transaction). The in-memory flag is not such evidence: it is set before the caller's transaction commits, so after a
+// rolled-back conversion it is ahead of the database, and a shortcut on it makes the retry a silent no-op.
+func checkConversionSuccessMeansStripped(c *Ctx, rule string) {
+	p := c.P
+	fn := p.Func("waddrmgr", "Manager", "ConvertToWatchingOnly")
+	if fn == nil {
+		c.Unresolved(rule, "Manager.ConvertToWatchingOnly")
+		return
+	}
+	alreadyInDB := func(from *ssa.BasicBlock, si int) bool {
+		f := edgeFactOf(from, si)
+		return f != nil && f.Kind == "true" && isResultOfCall(f.V, "fetchWatchingOnly", 0)
+	}
+	bad := p.mustPassToSuccess(fn, nil, isCallNamed("putWatchingOnly"), alreadyInDB)
+	detail := ""
+	if bad != nil {
+		detail = "ConvertToWatchingOnly can return success at " + p.Pos(bad.Pos()) + " without having written the watching-only flag and without having found it set in the database (e.g. on the in-memory flag alone): after a rolled-back conversion a retry reports success and leaves every private key in the file"
+	}
+	c.Check(rule, "conversion-success-means-database-converted", fn.Pos(), bad == nil, detail)
+}
+
+// checkImportPathsAgreeOnSchemaField (sibling agreement): an imported key has no branch; by convention the scoped
+// manager gives it the scope's EXTERNAL address type — when it shapes the database key (importPublicKey), when it builds
+// the object it returns and caches (toImported*ManagedAddress) and when it rebuilds the object from its row
+// (importedAddressRowToManaged). All methods that read one of the two schema fields directly (the branch selector reads
+// both and is not one of them) read the same one; a single deviation makes the cached address differ from the one a
+// restart rebuilds (BIP49: native vs nested segwit).
+func checkImportPathsAgreeOnSchemaField(c *Ctx, rule string) {
+	p := c.P
+	reads := map[*ssa.Function]map[string]token.Pos{}
+	for _, fn := range p.FuncsIn("waddrmgr") {
+		top := outermost(fn)
+		if top.Signature.Recv() == nil || recvName(top) != "ScopedKeyManager" {
+			continue
+		}
+		for _, b := range fn.Blocks {
+			for _, ins := range b.Instrs {
+				fa, ok := ins.(*ssa.FieldAddr)
+				if !ok {
+					continue
+				}
+				tn, f := fieldAddrName(fa)
+				if tn != "ScopeAddrSchema" || (f != "ExternalAddrType" && f != "InternalAddrType") {
+					continue
+				}
+				// a read of the manager's own schema (s.addrSchema.X), not of an account's override
+				if inner, ok := fa.X.(*ssa.FieldAddr); ok {
+					if btn, bf := fieldAddrName(inner); btn != "ScopedKeyManager" || bf != "addrSchema" {
+						continue
+					}
+				} else {
+					continue
+				}
+				if reads[top] == nil {
+					reads[top] = map[string]token.Pos{}
+				}
+				reads[top][f] = fa.Pos()
+			}
+		}
+	}
+	count := map[string]int{}
+	for _, fs := range reads {
+		if len(fs) == 1 {
+			for f := range fs {
+				count[f]++
+			}
+		}
+	}
+	major := "ExternalAddrType"
+	if count["InternalAddrType"] > count["ExternalAddrType"] {
+		major = "InternalAddrType"
+	}
+	n := 0
+	var fns []*ssa.Function
+	for fn := range reads {
+		fns = append(fns, fn)
+	}
+	sort.Slice(fns, func(i, j int) bool { return fns[i].Pos() < fns[j].Pos() })
+	for _, fn := range fns {
+		fs := reads[fn]
+		if len(fs) != 1 {
+			continue
+		}
+		n++
+		for f, pos := range fs {
+			c.Check(rule, "branchless-address-type-read-agrees:"+fn.Name(), pos, f == major,
+				fnName(fn)+" takes the address type of a key that has no branch (an imported key) from the scope schema's "+f+" while its siblings use "+major+": for a scope whose two types differ the object it builds is not the address the database row (and a restart) stands for")
+		}
+	}
+	c.Floor(rule, "direct single-field reads of the scope's address schema", n, 4)
 }
